@@ -70,15 +70,36 @@ Qed.
 
 (* ---------- monotonicity of the recorded position ---------- *)
 
-Lemma apply_entry_mono : forall st le c, ss_le (synced_of st c) (synced_of (apply_entry st le) c).
+(* an accepted position update never lowers any cluster's position *)
+Lemma postprocess_mono : forall m e c,
+  is_already_applied m e = false -> ss_le (sm_get c m) (sm_get c (postprocess m e)).
 Proof.
-  intros st le c; unfold synced_of; destruct le as [e|tag p]; [|cbn; apply ss_le_refl].
-  cbn [apply_entry]. destruct (is_already_applied (r_synced st) e) eqn:F; [apply ss_le_refl|]. cbn [r_synced].
-  destruct (N.eq_dec c (s_cluster e)) as [->|Hne].
+  intros m e c F. destruct (N.eq_dec c (s_cluster e)) as [->|Hne].
   - unfold postprocess. destruct ((s_term e =? 0) && (s_index e =? 0)) eqn:Z; [apply ss_le_refl|].
     rewrite sm_get_set_same. unfold is_already_applied in F.
-    destruct (sm_get (s_cluster e) (r_synced st)) as [o|]; cbn; [split; lia|exact I].
+    destruct (sm_get (s_cluster e) m) as [o|]; cbn; [split; lia|exact I].
   - rewrite postprocess_get_other by exact Hne. apply ss_le_refl.
+Qed.
+
+(* the synced map after an entry: unchanged, or the accepted entry's position recorded *)
+Lemma apply_entry_synced : forall st le,
+  r_synced (apply_entry st le) = r_synced st \/
+  exists e, is_already_applied (r_synced st) e = false /\ r_synced (apply_entry st le) = postprocess (r_synced st) e.
+Proof.
+  intros st [e|t p|e|e content|e]; cbn [apply_entry].
+  - destruct (is_already_applied (r_synced st) e) eqn:F; [now left|right; exists e; auto].
+  - now left.
+  - now left.
+  - destruct (is_already_applied (r_synced st) e) eqn:F; [now left|].
+    destruct content; [right; exists e; auto|now left].
+  - destruct (is_already_applied (r_synced st) e) eqn:F; [now left|right; exists e; auto].
+Qed.
+
+Lemma apply_entry_mono : forall st le c, ss_le (synced_of st c) (synced_of (apply_entry st le) c).
+Proof.
+  intros st le c; unfold synced_of. destruct (apply_entry_synced st le) as [->|[e [F ->]]].
+  - apply ss_le_refl.
+  - now apply postprocess_mono.
 Qed.
 
 Lemma apply_log_mono : forall l st c, ss_le (synced_of st c) (synced_of (apply_log st l) c).
@@ -157,7 +178,7 @@ Qed.
 
 Lemma step_inv : forall nd o, node_inv nd -> node_inv (fst (step nd o)).
 Proof.
-  intros nd o H; pose proof H as [Hc Hs]; destruct o as [e tsok propok pre|n| |p| | |b]; cbn.
+  intros nd o H; pose proof H as [Hc Hs]; destruct o as [e tsok propok pre|n| |p| | |b|c t i|c t i content|c t i]; cbn.
   - destruct (pre && prefilter (r_synced (n_cur nd)) e); [exact H|].
     destruct (negb tsok); [exact H|]. destruct (negb propok); [exact H|]. split; cbn; assumption.
   - destruct (Nat.min n (length (n_pending nd))) eqn:E; [exact H|]. apply commit_n_inv; exact H.
@@ -172,6 +193,12 @@ Proof.
     split; cbn; [rewrite R; exact Hc|exact Hs].
   - destruct (rpc_collect (r_synced (n_cur nd)) b) as [l ok] eqn:ER; cbn.
     apply commit_n_inv. split; cbn; assumption.
+  - destruct (add_applying (n_snaps nd) c t i) as [m added].
+    destruct (negb added && _); [exact H|split; cbn; assumption].
+  - destruct (snm_get c (n_snaps nd)) as [o|]; [|exact H].
+    destruct (negb (same_snap o t i)); [exact H|].
+    destruct (negb (sn_status o =? apply_snap_transferred)); [exact H|split; cbn; assumption].
+  - split; cbn; assumption.
 Qed.
 
 Lemma run_snoc : forall ops o, run (ops ++ [o]) = fst (step (run ops) o).
@@ -206,7 +233,7 @@ Lemma step_log_ext : forall nd o, exists ext, n_log (fst (step nd o)) = n_log nd
   n_cur (fst (step nd o)) = apply_log (n_cur nd) ext \/
   (n_log (fst (step nd o)) = n_log nd ++ ext /\ ext = [] /\ o = ORestart).
 Proof.
-  intros nd o; destruct o as [e tsok propok pre|n| |p| | |b]; cbn.
+  intros nd o; destruct o as [e tsok propok pre|n| |p| | |b|c t i|c t i content|c t i]; cbn.
   - exists []. left. destruct (pre && prefilter (r_synced (n_cur nd)) e); [now rewrite app_nil_r|].
     destruct (negb tsok); [now rewrite app_nil_r|]. destruct (negb propok); now rewrite app_nil_r.
   - destruct (Nat.min n (length (n_pending nd))) eqn:E.
@@ -217,6 +244,12 @@ Proof.
   - exists []; left; now rewrite app_nil_r.
   - exists []; right. destruct (restore nd); cbn. now rewrite app_nil_r.
   - destruct (rpc_collect (r_synced (n_cur nd)) b) as [l ok]; cbn. eexists; left; split; reflexivity.
+  - exists []; left. destruct (add_applying (n_snaps nd) c t i) as [m added].
+    destruct (negb added && _); now rewrite app_nil_r.
+  - exists []; left. destruct (snm_get c (n_snaps nd)) as [o|]; [|now rewrite app_nil_r].
+    destruct (negb (same_snap o t i)); [now rewrite app_nil_r|].
+    destruct (negb (sn_status o =? apply_snap_transferred)); now rewrite app_nil_r.
+  - exists []; left; now rewrite app_nil_r.
 Qed.
 
 (* over every schedule and every next step, no cluster's recorded position moves backwards *)
@@ -239,34 +272,63 @@ Qed.
 (* ====================================================================================== *)
 (* ---------- exactly once ---------- *)
 
-(* what reaches the apply loop from source cluster c, in local log order *)
-Definition deliveries (c : N) (l : list lentry) : list sentry :=
-  flat_map (fun le => match le with
-                      | LSync e => if s_cluster e =? c then [e] else []
-                      | LLocal _ _ => []
-                      end) l.
+Definition entry_cluster (le : lentry) : option N :=
+  match le with
+  | LSync e | LXfer e | LSnap e _ | LSkip e => Some (s_cluster e)
+  | LLocal _ _ => None
+  end.
+
+(* what reaches the apply loop on behalf of source cluster c, in local log order *)
+Definition deliveries (c : N) (l : list lentry) : list lentry :=
+  filter (fun le => match entry_cluster le with Some k => k =? c | None => false end) l.
 
 (* local client writes do not write the keys replicated from cluster c (tag 0 is the receiver's own) *)
 Definition no_local_tag (c : N) (l : list lentry) : Prop :=
-  Forall (fun le => match le with LLocal t _ => t <> c | LSync _ => True end) l.
+  Forall (fun le => match le with LLocal t _ => t <> c | _ => True end) l.
+
+(* a remote snapshot replaces the WHOLE store: the statements about cluster c's data assume that no other
+   cluster's snapshot is installed on this replica (a receiver has one snapshot source) *)
+Definition no_foreign_snap (c : N) (l : list lentry) : Prop :=
+  Forall (fun le => match le with LSnap e (Some _) => s_cluster e = c | _ => True end) l.
 
 (* well-formed source log: a raft log — indices strictly increasing and positive, terms non-decreasing *)
 Definition src_lt (a b : sentry) : Prop := s_index a < s_index b /\ s_term a <= s_term b.
 Definition wf_source (c : N) (src : list sentry) : Prop :=
   Forall (fun e => s_cluster e = c /\ 0 < s_index e) src /\ StronglySorted src_lt src.
 
-(* the delivery sequence ds follows the source order: every delivered entry is one of the first k
-   (a duplicate / stale re-send / overlap) or exactly the next one; k counts the distinct entries seen *)
-Inductive Follows (src : list sentry) : nat -> list sentry -> nat -> Prop :=
-| F_nil : forall k, Follows src k [] k
-| F_old : forall k j e r k', nth_error src j = Some e -> (j < k)%nat -> Follows src k r k' -> Follows src k (e :: r) k'
-| F_next : forall k e r k', nth_error src k = Some e -> Follows src (S k) r k' -> Follows src k (e :: r) k'.
+(* same raft position *)
+Definition same_pos (e x : sentry) : Prop := s_term e = s_term x /\ s_index e = s_index x.
 
-(* position recorded for the cluster = position of the k-th source entry (nothing when k = 0) *)
+(* what a checkpoint of the source taken at its (n+1)-th entry holds *)
+Definition src_snapshot (c : N) (src : list sentry) (n : nat) : journal :=
+  map (fun x => (c, s_payload x)) (firstn (S n) src).
+
+(* the delivery sequence follows the source: every delivered entry is one of the first k (a duplicate / stale
+   re-send / overlap) or exactly the next one; a snapshot request is stale, or fails (no checkpoint), or
+   installs the source's own state at one of its positions not behind k; transfer requests are free;
+   k counts the source entries covered so far *)
+Inductive Follows (c : N) (src : list sentry) : nat -> list lentry -> nat -> Prop :=
+| F_nil : forall k, Follows c src k [] k
+| F_old : forall k j e r k', nth_error src j = Some e -> (j < k)%nat ->
+    Follows c src k r k' -> Follows c src k (LSync e :: r) k'
+| F_next : forall k e r k', nth_error src k = Some e ->
+    Follows c src (S k) r k' -> Follows c src k (LSync e :: r) k'
+| F_xfer : forall k e r k', Follows c src k r k' -> Follows c src k (LXfer e :: r) k'
+| F_snap_fail : forall k e r k', Follows c src k r k' -> Follows c src k (LSnap e None :: r) k'
+| F_snap_old : forall k j e x content r k', nth_error src j = Some x -> same_pos e x -> (j < k)%nat ->
+    Follows c src k r k' -> Follows c src k (LSnap e content :: r) k'
+| F_snap : forall k j e x r k', nth_error src j = Some x -> same_pos e x -> s_cluster e = c -> (k <= j)%nat ->
+    Follows c src (S j) r k' -> Follows c src k (LSnap e (Some (src_snapshot c src j)) :: r) k'
+| F_skip_old : forall k j e x r k', nth_error src j = Some x -> same_pos e x -> (j < k)%nat ->
+    Follows c src k r k' -> Follows c src k (LSkip e :: r) k'.
+
+Definition pos_eq (o : sstate) (e : sentry) : Prop := ss_term o = s_term e /\ ss_index o = s_index e.
+
+(* position recorded for the cluster = raft position of the k-th source entry (nothing when k = 0) *)
 Definition synced_at (src : list sentry) (k : nat) (o : option sstate) : Prop :=
   match k with
   | O => o = None
-  | S j => exists e, nth_error src j = Some e /\ o = Some (pos_of e)
+  | S j => exists e o', nth_error src j = Some e /\ o = Some o' /\ pos_eq o' e
   end.
 
 Definition Inv (c : N) (src : list sentry) (k : nat) (st : rstate) : Prop :=
@@ -280,6 +342,13 @@ Proof. intros; unfold proj; cbn; now rewrite N.eqb_refl. Qed.
 
 Lemma proj_one_other : forall c t p, t <> c -> proj c [(t, p)] = [].
 Proof. intros c t p H; unfold proj; cbn. destruct (t =? c) eqn:E; [apply N.eqb_eq in E; contradiction|reflexivity]. Qed.
+
+Lemma proj_tagged : forall c (l : list sentry), proj c (map (fun x => (c, s_payload x)) l) = map s_payload l.
+Proof.
+  intros c l; induction l as [|x r IH]; [reflexivity|].
+  change (map (fun x0 => (c, s_payload x0)) (x :: r)) with ([(c, s_payload x)] ++ map (fun x0 => (c, s_payload x0)) r).
+  rewrite proj_app, proj_one_same, IH. reflexivity.
+Qed.
 
 Lemma sorted_nth_lt : forall (src : list sentry) i j a b,
   StronglySorted src_lt src -> nth_error src i = Some a -> nth_error src j = Some b -> (i < j)%nat -> src_lt a b.
@@ -302,17 +371,41 @@ Proof.
   intros c src j e [Hf _] H. rewrite Forall_forall in Hf. apply Hf. eapply nth_error_In; eauto.
 Qed.
 
-(* a delivered old entry is filtered *)
+(* the filter only looks at cluster, term and index *)
+Lemma filter_same_pos : forall m e x, s_cluster e = s_cluster x -> same_pos e x ->
+  is_already_applied m e = is_already_applied m x.
+Proof. intros m e x Hc [Ht Hi]; unfold is_already_applied. now rewrite Hc, Ht, Hi. Qed.
+
+(* something at an old position is filtered *)
 Lemma old_is_filtered : forall c src k st j e,
   wf_source c src -> Inv c src k st -> nth_error src j = Some e -> (j < k)%nat ->
   is_already_applied (r_synced st) e = true.
 Proof.
   intros c src k st j e Hwf [_ Hs] Hj Hlt. destruct k as [|k]; [lia|].
-  destruct Hs as [ek [Hk Hsy]]. unfold is_already_applied.
-  destruct (wf_nth _ _ _ _ Hwf Hj) as [Hc _]. rewrite Hc. unfold synced_of in Hsy. rewrite Hsy. cbn.
+  destruct Hs as [ek [o' [Hk [Hsy [Ht Hi]]]]]. unfold is_already_applied.
+  destruct (wf_nth _ _ _ _ Hwf Hj) as [Hc _]. rewrite Hc. unfold synced_of in Hsy. rewrite Hsy.
   destruct (Nat.eq_dec j k) as [->|Hne].
   - rewrite Hj in Hk; inversion Hk; subst. lia.
   - assert (src_lt e ek) as [H1 H2] by (eapply sorted_nth_lt; [apply Hwf|eauto|eauto|lia]). lia.
+Qed.
+
+(* something at a position not behind k is accepted *)
+Lemma ahead_not_filtered : forall c src k st j e,
+  wf_source c src -> Inv c src k st -> nth_error src j = Some e -> (k <= j)%nat ->
+  is_already_applied (r_synced st) e = false.
+Proof.
+  intros c src k st j e Hwf [_ Hs] Hj Hle. destruct (wf_nth _ _ _ _ Hwf Hj) as [Hc Hpos].
+  unfold is_already_applied. rewrite Hc. destruct k as [|k]; cbn in Hs; unfold synced_of in Hs.
+  - now rewrite Hs.
+  - destruct Hs as [ek [o' [Hek [Hsy [Ht Hi]]]]]. rewrite Hsy.
+    assert (src_lt ek e) as [H1 H2] by (eapply sorted_nth_lt; [apply Hwf|eauto|eauto|lia]). lia.
+Qed.
+
+Lemma postprocess_records : forall m e, 0 < s_index e ->
+  exists o', sm_get (s_cluster e) (postprocess m e) = Some o' /\ pos_eq o' e.
+Proof.
+  intros m e Hpos. exists (pos_of e). split; [|split; reflexivity].
+  apply postprocess_get_same. destruct (s_index e =? 0) eqn:Z; [lia|]. now rewrite andb_false_r.
 Qed.
 
 (* the next entry is accepted and moves the invariant forward *)
@@ -320,25 +413,48 @@ Lemma next_is_applied : forall c src k st e,
   wf_source c src -> Inv c src k st -> nth_error src k = Some e ->
   is_already_applied (r_synced st) e = false /\ Inv c src (S k) (apply_entry st (LSync e)).
 Proof.
-  intros c src k st e Hwf [Hj Hs] Hk. destruct (wf_nth _ _ _ _ Hwf Hk) as [Hc Hpos].
-  assert (F : is_already_applied (r_synced st) e = false).
-  { unfold is_already_applied. rewrite Hc. destruct k as [|k]; cbn in Hs; unfold synced_of in Hs.
-    - now rewrite Hs.
-    - destruct Hs as [ek [Hek Hsy]]. rewrite Hsy. cbn.
-      assert (src_lt ek e) as [H1 H2] by (eapply sorted_nth_lt; [apply Hwf|eauto|eauto|lia]). lia. }
+  intros c src k st e Hwf HI Hk. destruct (wf_nth _ _ _ _ Hwf Hk) as [Hc Hpos].
+  assert (F : is_already_applied (r_synced st) e = false) by (eapply ahead_not_filtered; eauto).
+  destruct HI as [Hj Hs].
   split; [exact F|]. cbn [apply_entry]. rewrite F. split; cbn [r_journal r_synced].
   - unfold sm_apply. rewrite proj_app, Hj, Hc, proj_one_same. rewrite (firstn_S_nth _ _ _ _ Hk), map_app. reflexivity.
-  - cbn. exists e; split; [exact Hk|]. unfold synced_of; cbn [r_synced]. rewrite <- Hc.
-    apply postprocess_get_same. destruct (s_index e =? 0) eqn:Z; [lia|]. now rewrite andb_false_r.
+  - cbn. destruct (postprocess_records (r_synced st) e Hpos) as [o' [Hg Hp]].
+    exists e, o'. split; [exact Hk|]. split; [|exact Hp]. unfold synced_of; cbn [r_synced]. now rewrite <- Hc.
 Qed.
 
-Lemma other_cluster_keeps : forall c src k st e,
-  s_cluster e <> c -> Inv c src k st -> Inv c src k (apply_entry st (LSync e)).
+(* a snapshot of the source at position j (not behind k) is installed and covers the first j+1 entries *)
+Lemma snap_is_installed : forall c src k st j e x,
+  wf_source c src -> Inv c src k st -> nth_error src j = Some x -> same_pos e x -> s_cluster e = c -> (k <= j)%nat ->
+  Inv c src (S j) (apply_entry st (LSnap e (Some (src_snapshot c src j)))).
 Proof.
-  intros c src k st e Hne [Hj Hs]. cbn [apply_entry]. destruct (is_already_applied (r_synced st) e); [split; assumption|].
-  split; cbn [r_journal r_synced].
-  - unfold sm_apply. rewrite proj_app, proj_one_other by exact Hne. now rewrite app_nil_r.
-  - unfold synced_of in *; cbn [r_synced]. rewrite postprocess_get_other by (intro X; apply Hne; now symmetry). exact Hs.
+  intros c src k st j e x Hwf HI Hj Hsp Hce Hle. destruct (wf_nth _ _ _ _ Hwf Hj) as [Hc Hpos].
+  assert (F : is_already_applied (r_synced st) e = false).
+  { rewrite (filter_same_pos _ e x); [eapply ahead_not_filtered; eauto|congruence|exact Hsp]. }
+  cbn [apply_entry]. rewrite F. split; cbn [r_journal r_synced].
+  - unfold src_snapshot. apply proj_tagged.
+  - cbn. destruct Hsp as [Ht Hi].
+    destruct (postprocess_records (r_synced st) e ltac:(lia)) as [o' [Hg [Hp1 Hp2]]].
+    exists x, o'. split; [exact Hj|]. split; [|split; congruence].
+    unfold synced_of; cbn [r_synced]. now rewrite <- Hce.
+Qed.
+
+Lemma other_cluster_keeps : forall c src k st le k0,
+  entry_cluster le = Some k0 -> k0 <> c ->
+  match le with LSnap _ (Some _) => False | _ => True end ->
+  Inv c src k st -> Inv c src k (apply_entry st le).
+Proof.
+  intros c src k st le k0 Hk Hne Hns [Hj Hs].
+  destruct le as [e|t p|e|e content|e]; cbn in Hk; inversion Hk; subst; cbn [apply_entry].
+  - destruct (is_already_applied (r_synced st) e); [split; assumption|].
+    split; cbn [r_journal r_synced].
+    + unfold sm_apply. rewrite proj_app, proj_one_other by exact Hne. now rewrite app_nil_r.
+    + unfold synced_of in *; cbn [r_synced]. rewrite postprocess_get_other by (intro X; apply Hne; now symmetry). exact Hs.
+  - split; assumption.
+  - destruct (is_already_applied (r_synced st) e); [split; assumption|].
+    destruct content; [contradiction|split; assumption].
+  - destruct (is_already_applied (r_synced st) e); [split; assumption|].
+    split; cbn [r_journal r_synced]; [exact Hj|].
+    unfold synced_of in *; cbn [r_synced]. rewrite postprocess_get_other by (intro X; apply Hne; now symmetry). exact Hs.
 Qed.
 
 Lemma local_keeps : forall c src k st t p, t <> c -> Inv c src k st -> Inv c src k (apply_entry st (LLocal t p)).
@@ -348,43 +464,69 @@ Proof.
   - exact Hs.
 Qed.
 
+Lemma deliveries_cons : forall c le l,
+  deliveries c (le :: l) =
+  (if match entry_cluster le with Some k => k =? c | None => false end then [le] else []) ++ deliveries c l.
+Proof.
+  intros c le l; unfold deliveries; cbn [filter].
+  destruct (match entry_cluster le with Some k => k =? c | None => false end); reflexivity.
+Qed.
+
 Lemma replay_step : forall c src l st k k',
-  wf_source c src -> no_local_tag c l -> Inv c src k st -> Follows src k (deliveries c l) k' ->
+  wf_source c src -> no_local_tag c l -> no_foreign_snap c l -> Inv c src k st ->
+  Follows c src k (deliveries c l) k' ->
   Inv c src k' (apply_log st l).
 Proof.
-  intros c src l; induction l as [|le l IH]; intros st k k' Hwf Hnl HI HF.
+  intros c src l; induction l as [|le l IH]; intros st k k' Hwf Hnl Hfs HI HF.
   - cbn in HF. inversion HF; subst. exact HI.
-  - rewrite apply_log_cons. inversion Hnl as [|? ? Hle Hnl']; subst.
-    destruct le as [e|t p].
-    + cbn in HF. destruct (s_cluster e =? c) eqn:E.
-      * cbn in HF. inversion HF as [|? j ? ? ? Hj Hlt HF'|? ? ? ? Hk HF']; subst.
+  - rewrite apply_log_cons. inversion Hnl as [|? ? Hle Hnl']; subst. inversion Hfs as [|? ? Hfe Hfs']; subst.
+    rewrite deliveries_cons in HF.
+    destruct (entry_cluster le) as [k0|] eqn:EC.
+    + destruct (k0 =? c) eqn:E.
+      * apply N.eqb_eq in E; subst k0. cbn [app] in HF.
+        inversion HF as [|? j e ? ? Hj Hlt HF'|? e ? ? Hk HF'|? e ? ? HF'|? e ? ? HF'
+                         |? j e x content ? ? Hj Hsp Hlt HF'|? j e x ? ? Hj Hsp Hce Hle' HF'|? j e x ? ? Hj Hsp Hlt HF']; subst.
         -- assert (Hf := old_is_filtered _ _ _ _ _ _ Hwf HI Hj Hlt).
            cbn [apply_entry]. rewrite Hf. eapply IH; eauto.
         -- destruct (next_is_applied _ _ _ _ _ Hwf HI Hk) as [_ HI']. eapply IH; eauto.
-      * cbn in HF. apply N.eqb_neq in E. eapply IH; eauto. now apply other_cluster_keeps.
-    + cbn in HF. eapply IH; eauto. now apply local_keeps.
+        -- cbn [apply_entry]. eapply IH; eauto.
+        -- cbn [apply_entry]. destruct (is_already_applied (r_synced st) e); eapply IH; eauto.
+        -- assert (Hf : is_already_applied (r_synced st) e = true).
+           { cbn in EC. inversion EC as [Hce]. destruct (wf_nth _ _ _ _ Hwf Hj) as [Hcx _].
+             rewrite (filter_same_pos _ e x); [eapply old_is_filtered; eauto|congruence|exact Hsp]. }
+           cbn [apply_entry]. rewrite Hf. eapply IH; eauto.
+        -- eapply IH; eauto. eapply snap_is_installed; eauto.
+        -- assert (Hf : is_already_applied (r_synced st) e = true).
+           { cbn in EC. inversion EC as [Hce]. destruct (wf_nth _ _ _ _ Hwf Hj) as [Hcx _].
+             rewrite (filter_same_pos _ e x); [eapply old_is_filtered; eauto|congruence|exact Hsp]. }
+           cbn [apply_entry]. rewrite Hf. eapply IH; eauto.
+      * apply N.eqb_neq in E. cbn [app] in HF. eapply IH; eauto.
+        eapply other_cluster_keeps; eauto.
+        destruct le as [e|t p|e|e [j|]|e]; try exact I. cbn in EC. inversion EC as [Hk0]. apply E. rewrite <- Hk0. exact Hfe.
+    + cbn [app] in HF. destruct le as [e|t p|e|e content|e]; cbn in EC; try discriminate.
+      eapply IH; eauto. now apply local_keeps.
 Qed.
 
 Lemma Inv_init : forall c src, Inv c src 0 init_r.
 Proof. intros; split; reflexivity. Qed.
 
-(* replay_idempotent: over ALL local logs whose deliveries from c follow the source order (with any
-   duplicates, stale re-sends and overlaps), the data replicated from c is exactly the first k source
-   entries, each once and in order, and the recorded position is the k-th entry's (none for k = 0) *)
+(* replay_idempotent: over ALL local logs whose deliveries from c follow the source (with any duplicates, stale
+   re-sends, overlaps, failed and repeated snapshot requests), the data replicated from c is exactly the first k
+   source entries, each once and in order, and the recorded position is the k-th entry's (none for k = 0) *)
 Theorem replay_idempotent_log : forall c src l k,
-  wf_source c src -> no_local_tag c l -> Follows src 0 (deliveries c l) k ->
+  wf_source c src -> no_local_tag c l -> no_foreign_snap c l -> Follows c src 0 (deliveries c l) k ->
   Inv c src k (apply_log init_r l).
 Proof. intros; eapply replay_step; eauto using Inv_init. Qed.
 
-(* the replica's own local writes carry tag 0; in-flight proposals are syncer entries *)
+(* the replica's own local writes carry tag 0; in-flight proposals are never local writes *)
 Definition tags_ok (nd : node) : Prop :=
-  Forall (fun le => match le with LLocal t _ => t = 0 | LSync _ => True end) (n_log nd) /\
-  Forall (fun le => match le with LLocal _ _ => False | LSync _ => True end) (n_pending nd).
+  Forall (fun le => match le with LLocal t _ => t = 0 | _ => True end) (n_log nd) /\
+  Forall (fun le => match le with LLocal _ _ => False | _ => True end) (n_pending nd).
 
 Lemma sync_only_weaken : forall l,
-  Forall (fun le => match le with LLocal _ _ => False | LSync _ => True end) l ->
-  Forall (fun le => match le with LLocal t _ => t = 0 | LSync _ => True end) l.
-Proof. intros l H; eapply Forall_impl; [|exact H]. intros [e|t p]; tauto. Qed.
+  Forall (fun le => match le with LLocal _ _ => False | _ => True end) l ->
+  Forall (fun le => match le with LLocal t _ => t = 0 | _ => True end) l.
+Proof. intros l H; eapply Forall_impl; [|exact H]. intros [e|t p|e|e content|e]; tauto. Qed.
 
 Lemma Forall_firstn : forall (A : Type) (P : A -> Prop) k l, Forall P l -> Forall P (firstn k l).
 Proof.
@@ -398,7 +540,7 @@ Proof.
 Qed.
 
 Lemma rpc_collect_sync : forall m b,
-  Forall (fun le => match le with LLocal _ _ => False | LSync _ => True end) (fst (rpc_collect m b)).
+  Forall (fun le => match le with LLocal _ _ => False | _ => True end) (fst (rpc_collect m b)).
 Proof.
   intros m b; induction b as [|[e tsok] r IH]; cbn; [constructor|].
   destruct (prefilter m e); [exact IH|]. destruct (negb tsok); cbn; [constructor|].
@@ -412,9 +554,17 @@ Proof.
   - now apply Forall_skipn.
 Qed.
 
+Lemma snoc_pending_tags : forall nd m le, tags_ok nd ->
+  match le with LLocal _ _ => False | _ => True end ->
+  tags_ok (with_pending (with_snaps nd m) (n_pending nd ++ [le])).
+Proof.
+  intros nd m le [Hl Hp] Hle; split; cbn; [exact Hl|].
+  apply Forall_app; split; [exact Hp|]. constructor; [exact Hle|constructor].
+Qed.
+
 Lemma step_tags : forall nd o, tags_ok nd -> tags_ok (fst (step nd o)).
 Proof.
-  intros nd o H; pose proof H as [Hl Hp]; destruct o as [e tsok propok pre|n| |p| | |b]; cbn.
+  intros nd o H; pose proof H as [Hl Hp]; destruct o as [e tsok propok pre|n| |p| | |b|c t i|c t i content|c t i]; cbn.
   - destruct (pre && prefilter (r_synced (n_cur nd)) e); [exact H|].
     destruct (negb tsok); [exact H|]. destruct (negb propok); [exact H|]. split; cbn; [exact Hl|].
     apply Forall_app; split; [exact Hp|]. constructor; [exact I|constructor].
@@ -426,6 +576,12 @@ Proof.
   - pose proof (rpc_collect_sync (r_synced (n_cur nd)) b) as Hr.
     destruct (rpc_collect (r_synced (n_cur nd)) b) as [l ok]; cbn in *.
     apply commit_n_tags. split; cbn; [exact Hl|]. apply Forall_app; split; assumption.
+  - destruct (add_applying (n_snaps nd) c t i) as [m added].
+    destruct (negb added && _); [exact H|]. now apply snoc_pending_tags.
+  - destruct (snm_get c (n_snaps nd)) as [o|]; [|exact H].
+    destruct (negb (same_snap o t i)); [exact H|].
+    destruct (negb (sn_status o =? apply_snap_transferred)); [exact H|]. now apply snoc_pending_tags.
+  - split; cbn; [exact Hl|]. apply Forall_app; split; [exact Hp|]. constructor; [exact I|constructor].
 Qed.
 
 Lemma run_tags : forall ops, tags_ok (run ops).
@@ -437,17 +593,18 @@ Qed.
 Lemma run_no_local_tag : forall ops c, c <> 0 -> no_local_tag c (n_log (run ops)).
 Proof.
   intros ops c Hc. destruct (run_tags ops) as [Hl _]. eapply Forall_impl; [|exact Hl].
-  intros [e|t p]; [tauto|]. intros ->. intro X; apply Hc; now symmetry.
+  intros [e|t p|e|e content|e]; try tauto. intros ->. intro X; apply Hc; now symmetry.
 Qed.
 
 (* the same over ALL schedules of the replica: deliveries with or without pre-filter, failed and lost
-   proposals, batched commits, local writes, snapshots and restarts anywhere *)
+   proposals, batched commits, local writes, snapshots and restarts anywhere, remote snapshot requests *)
 Theorem replay_idempotent : forall ops c src k,
   c <> 0 -> wf_source c src ->
-  Follows src 0 (deliveries c (n_log (run ops))) k ->
+  no_foreign_snap c (n_log (run ops)) ->
+  Follows c src 0 (deliveries c (n_log (run ops))) k ->
   Inv c src k (n_cur (run ops)).
 Proof.
-  intros ops c src k Hc Hwf HF. rewrite run_refines_log.
+  intros ops c src k Hc Hwf Hfs HF. rewrite run_refines_log.
   apply replay_idempotent_log; auto. now apply run_no_local_tag.
 Qed.
 
@@ -464,21 +621,65 @@ Qed.
 Lemma source_proj : forall c src, proj c (r_journal (source_state c src)) = map s_payload src.
 Proof. intros; unfold source_state. now rewrite source_proj_gen. Qed.
 
-(* once every source entry has been delivered in this discipline, the replicated data IS the source's data *)
+(* once every source entry has been covered in this discipline, the replicated data IS the source's data *)
 Corollary replay_equals_source : forall ops c src,
   c <> 0 -> wf_source c src ->
-  Follows src 0 (deliveries c (n_log (run ops))) (length src) ->
+  no_foreign_snap c (n_log (run ops)) ->
+  Follows c src 0 (deliveries c (n_log (run ops))) (length src) ->
   proj c (r_journal (n_cur (run ops))) = proj c (r_journal (source_state c src)).
 Proof.
-  intros ops c src Hc Hwf HF. destruct (replay_idempotent ops c src _ Hc Hwf HF) as [Hj _].
+  intros ops c src Hc Hwf Hfs HF. destruct (replay_idempotent ops c src _ Hc Hwf Hfs HF) as [Hj _].
   rewrite Hj, firstn_all, source_proj. reflexivity.
+Qed.
+
+(* ---------- failed and ignored applications; retries ---------- *)
+
+(* an entry that is filtered, a transfer request, and a snapshot apply that cannot restore (no usable
+   checkpoint) leave the store AND every recorded position exactly as they were *)
+Theorem ignored_or_failed_no_advance : forall st le,
+  match le with
+  | LSync e | LSkip e => is_already_applied (r_synced st) e = true
+  | LSnap e content => is_already_applied (r_synced st) e = true \/ content = None
+  | LXfer _ => True
+  | LLocal _ _ => False
+  end -> apply_entry st le = st.
+Proof.
+  intros st [e|t p|e|e content|e] H; cbn [apply_entry]; try contradiction; try reflexivity.
+  - now rewrite H.
+  - destruct H as [H| ->]; [now rewrite H|]. destruct (is_already_applied (r_synced st) e); reflexivity.
+  - now rewrite H.
+Qed.
+
+(* a retry after a failed snapshot apply is applied, and exactly once: the failure changed nothing, the retry with
+   the checkpoint installs it, every later repetition is filtered *)
+Theorem snap_retry_once : forall st e j reps,
+  0 < s_index e -> is_already_applied (r_synced st) e = false ->
+  let st1 := apply_entry (apply_entry st (LSnap e None)) (LSnap e (Some j)) in
+  r_journal st1 = j /\
+  (exists o', synced_of st1 (s_cluster e) = Some o' /\ pos_eq o' e) /\
+  apply_log st1 (map (fun content => LSnap e content) reps) = st1.
+Proof.
+  intros st e j reps Hpos F st1.
+  assert (E0 : apply_entry st (LSnap e None) = st) by (cbn [apply_entry]; now rewrite F).
+  assert (E1 : st1 = mkR j (postprocess (r_synced st) e)).
+  { unfold st1. rewrite E0. cbn [apply_entry]. now rewrite F. }
+  destruct (postprocess_records (r_synced st) e Hpos) as [o' [Hg [Hp1 Hp2]]].
+  split; [now rewrite E1|]. split.
+  - exists o'. split; [|split; assumption]. rewrite E1. exact Hg.
+  - assert (Ff : is_already_applied (r_synced st1) e = true).
+    { rewrite E1; cbn [r_synced]. unfold is_already_applied. rewrite Hg. lia. }
+    clear E1. induction reps as [|content reps IH]; [reflexivity|].
+    cbn [map]. rewrite apply_log_cons. cbn [apply_entry]. rewrite Ff. exact IH.
 Qed.
 
 (* ---------- position recorded only after the effect ---------- *)
 
 Lemma apply_phases_last : forall st le, last (apply_phases st le) st = apply_entry st le.
 Proof.
-  intros st [e|t p]; cbn; [|reflexivity]. destruct (is_already_applied (r_synced st) e); reflexivity.
+  intros st [e|t p|e|e content|e]; cbn; try reflexivity.
+  - destruct (is_already_applied (r_synced st) e); reflexivity.
+  - destruct (is_already_applied (r_synced st) e); [reflexivity|]. destruct content; reflexivity.
+  - destruct (is_already_applied (r_synced st) e); reflexivity.
 Qed.
 
 (* unconditionally: in every state the apply loop passes through while handling an entry, if the synced map
@@ -486,11 +687,18 @@ Qed.
 Theorem position_changes_after_data : forall st le x,
   In x (apply_phases st le) -> r_synced x <> r_synced st -> r_journal x = r_journal (apply_entry st le).
 Proof.
-  intros st [e|t p] x; cbn [apply_phases apply_entry].
+  intros st [e|t p|e|e content|e] x; cbn [apply_phases apply_entry].
   - destruct (is_already_applied (r_synced st) e); cbn [In].
     + intros [<-|[]] Hne. reflexivity.
     + intros [<-|[<-|[]]] Hne; cbn [r_journal r_synced] in *; [contradiction|reflexivity].
   - intros [<-|[]] _; reflexivity.
+  - intros [<-|[]] _; reflexivity.
+  - destruct (is_already_applied (r_synced st) e); cbn [In].
+    + intros [<-|[]] Hne. reflexivity.
+    + destruct content; cbn [In].
+      * intros [<-|[<-|[]]] Hne; cbn [r_journal r_synced] in *; [contradiction|reflexivity].
+      * intros [<-|[]] Hne. reflexivity.
+  - destruct (is_already_applied (r_synced st) e); cbn [In]; intros [<-|[]] _; reflexivity.
 Qed.
 
 Definition prefix_of {A : Type} (a b : list A) : Prop := exists t, b = a ++ t.
@@ -502,32 +710,56 @@ Definition covered (c : N) (src : list sentry) (x : rstate) : Prop :=
 Lemma Inv_covered : forall c src k st, Inv c src k st -> covered c src st.
 Proof. intros c src k st [Hj Hs]; exists k; split; [exact Hs|]. exists []; now rewrite app_nil_r. Qed.
 
-Lemma Follows_app_inv : forall src a b k k',
-  Follows src k (a ++ b) k' -> exists km, Follows src k a km /\ Follows src km b k'.
+Lemma Follows_app_inv : forall c src a b k k',
+  Follows c src k (a ++ b) k' -> exists km, Follows c src k a km /\ Follows c src km b k'.
 Proof.
-  intros src a; induction a as [|e a IH]; intros b k k' H; cbn in H.
+  intros c src a; induction a as [|e a IH]; intros b k k' H; cbn in H.
   - exists k; split; [constructor|exact H].
-  - inversion H as [|? j ? ? ? Hj Hlt H'|? ? ? ? Hk H']; subst.
-    + destruct (IH _ _ _ H') as [km [H1 H2]]. exists km; split; [eapply F_old; eauto|exact H2].
-    + destruct (IH _ _ _ H') as [km [H1 H2]]. exists km; split; [eapply F_next; eauto|exact H2].
+  - inversion H as [|? j x ? ? Hj Hlt Hr|? x ? ? Hk Hr|? x ? ? Hr|? x ? ? Hr
+                    |? j x y content ? ? Hj Hsp Hlt Hr|? j x y ? ? Hj Hsp Hce Hle Hr|? j x y ? ? Hj Hsp Hlt Hr]; subst;
+      destruct (IH _ _ _ Hr) as [km [H1 H2]]; exists km; (split; [|exact H2]).
+    + eapply F_old; eauto.
+    + eapply F_next; eauto.
+    + eapply F_xfer; eauto.
+    + eapply F_snap_fail; eauto.
+    + eapply F_snap_old; eauto.
+    + eapply F_snap; eauto.
+    + eapply F_skip_old; eauto.
 Qed.
 
 Lemma deliveries_app : forall c a b, deliveries c (a ++ b) = deliveries c a ++ deliveries c b.
-Proof. intros; unfold deliveries; apply flat_map_app. Qed.
+Proof. intros; unfold deliveries; apply filter_app. Qed.
+
+Lemma firstn_prefix : forall (A : Type) (l : list A) a b, (a <= b)%nat -> prefix_of (firstn a l) (firstn b l).
+Proof.
+  intros A l a b H. exists (skipn a (firstn b l)).
+  pose proof (firstn_skipn a (firstn b l)) as E. rewrite firstn_firstn in E.
+  replace (Nat.min a b) with a in E by lia. now symmetry.
+Qed.
+
+Lemma prefix_map_firstn : forall (A B : Type) (f : A -> B) (l : list A) a b,
+  (a <= b)%nat -> prefix_of (map f (firstn a l)) (map f (firstn b l)).
+Proof.
+  intros A B f l a b H. destruct (firstn_prefix A l a b H) as [t Ht]. exists (map f t). now rewrite Ht, map_app.
+Qed.
+
+Lemma Follows_mono : forall c src k ds k', Follows c src k ds k' -> (k <= k')%nat.
+Proof. intros c src k ds k' H; induction H; lia. Qed.
 
 Theorem position_after_effect : forall c src l le k x,
-  wf_source c src -> no_local_tag c (l ++ [le]) ->
-  Follows src 0 (deliveries c (l ++ [le])) k ->
+  wf_source c src -> no_local_tag c (l ++ [le]) -> no_foreign_snap c (l ++ [le]) ->
+  Follows c src 0 (deliveries c (l ++ [le])) k ->
   In x (apply_phases (apply_log init_r l) le) -> covered c src x.
 Proof.
-  intros c src l le k x Hwf Hnl HF Hx.
-  rewrite deliveries_app in HF. destruct (Follows_app_inv _ _ _ _ _ HF) as [km [H1 H2]].
+  intros c src l le k x Hwf Hnl Hfs HF Hx.
+  rewrite deliveries_app in HF. destruct (Follows_app_inv _ _ _ _ _ _ HF) as [km [H1 H2]].
   apply Forall_app in Hnl. destruct Hnl as [Hnl1 Hnl2].
+  apply Forall_app in Hfs. destruct Hfs as [Hfs1 Hfs2].
   assert (HI : Inv c src km (apply_log init_r l)) by (apply replay_idempotent_log; auto).
   set (st := apply_log init_r l) in *.
   assert (HI' : Inv c src k (apply_entry st le)).
   { change (apply_entry st le) with (apply_log st [le]). eapply replay_step; eauto. }
-  destruct le as [e|t p]; cbn in Hx.
+  destruct le as [e|t p|e|e content|e]; cbn [apply_phases] in Hx.
   - destruct (is_already_applied (r_synced st) e) eqn:F.
     + destruct Hx as [<-|[]]. eapply Inv_covered; eauto.
     + destruct Hx as [<-|[<-|[]]].
@@ -535,13 +767,28 @@ Proof.
         rewrite proj_app, Hj. eexists; reflexivity.
       * cbn [apply_entry] in HI'. rewrite F in HI'. eapply Inv_covered; eauto.
   - destruct Hx as [<-|[]]. cbn in HI'. eapply Inv_covered; eauto.
+  - destruct Hx as [<-|[]]. eapply Inv_covered; eauto.
+  - destruct (is_already_applied (r_synced st) e) eqn:F.
+    + destruct Hx as [<-|[]]. eapply Inv_covered; eauto.
+    + destruct content as [j|].
+      * destruct Hx as [<-|[<-|[]]].
+        -- (* the checkpoint is in place, the position is still the old one: the old prefix is covered *)
+           cbn [apply_entry] in HI'. rewrite F in HI'. destruct HI' as [Hj' _]. cbn [r_journal] in Hj'.
+           destruct HI as [_ Hs]. exists km; split; [exact Hs|]. cbn [r_journal]. rewrite Hj'.
+           apply prefix_map_firstn. eapply Follows_mono; eauto.
+        -- cbn [apply_entry] in HI'. rewrite F in HI'. eapply Inv_covered; eauto.
+      * destruct Hx as [<-|[]]. eapply Inv_covered; eauto.
+  - destruct (is_already_applied (r_synced st) e) eqn:F.
+    + destruct Hx as [<-|[]]. eapply Inv_covered; eauto.
+    + destruct Hx as [<-|[]]. cbn [apply_entry] in HI'. rewrite F in HI'. eapply Inv_covered; eauto.
 Qed.
 
 (* ---------- the unconditional reading of "nothing is skipped" is false of the code ---------- *)
 
 Definition no_skip_unconditional : Prop :=
   forall c src l, wf_source c src -> no_local_tag c l ->
-    (forall e, In e src <-> In e (deliveries c l)) ->
+    (forall le, In le l -> exists e, le = LSync e) ->
+    (forall e, In e src <-> In (LSync e) (deliveries c l)) ->
     proj c (r_journal (apply_log init_r l)) = map s_payload src.
 
 (* witness: the newer entry commits first (a lost proposal in the middle of a pipelined batch, or a sender
@@ -555,9 +802,13 @@ Proof.
   assert (Hwf : wf_source 1 gap_src).
   { split; repeat constructor; cbn; try reflexivity; try discriminate. }
   assert (Hnl : no_local_tag 1 gap_log) by (repeat constructor).
-  assert (Hd : forall e, In e gap_src <-> In e (deliveries 1 gap_log)).
-  { intro e; cbn; tauto. }
-  specialize (H Hwf Hnl Hd). vm_compute in H. discriminate H.
+  assert (Hs : forall le, In le gap_log -> exists e, le = LSync e).
+  { intros le [<-|[<-|[]]]; eexists; reflexivity. }
+  assert (Hd : forall e, In e gap_src <-> In (LSync e) (deliveries 1 gap_log)).
+  { intro e; cbn; split.
+    - intros [<-|[<-|[]]]; auto.
+    - intros [H0|[H0|[]]]; inversion H0; auto. }
+  specialize (H Hwf Hnl Hs Hd). vm_compute in H. discriminate H.
 Qed.
 
 (* ====================================================================================== *)
@@ -599,6 +850,13 @@ Proof.
   eapply Forall_impl; [|exact Hall]. intros a [H1 _]; exact H1.
 Qed.
 
+Lemma sorted_firstn : forall (A : Type) (R : A -> A -> Prop) n l, StronglySorted R l -> StronglySorted R (firstn n l).
+Proof.
+  intros A R n; induction n as [|n IH]; intros l H; cbn; [constructor|].
+  destruct l as [|x r]; [constructor|]. inversion H; subst. constructor; [now apply IH|].
+  now apply Forall_firstn.
+Qed.
+
 (* an index-increasing list of members of an index-increasing list is a sub-sequence of it *)
 Lemma sorted_incl_sublist : forall src acc,
   StronglySorted idx_lt src -> StronglySorted idx_lt acc -> Forall (fun e => In e src) acc -> Sublist acc src.
@@ -624,44 +882,93 @@ Qed.
 Lemma snoc_cases : forall (A : Type) (l : list A), l = [] \/ exists l0 x, l = l0 ++ [x].
 Proof. intros A l; induction l as [|x l _] using rev_ind; [now left|right; eauto]. Qed.
 
+(* recorded position = raft position of the last applied entry *)
+Definition synced_last (acc : list sentry) (o : option sstate) : Prop :=
+  match last_opt acc with
+  | None => o = None
+  | Some h => exists o', o = Some o' /\ pos_eq o' h
+  end.
+
 Definition Inv2 (c : N) (src acc : list sentry) (st : rstate) : Prop :=
   proj c (r_journal st) = map s_payload acc /\
   Forall (fun e => In e src) acc /\
   StronglySorted idx_lt acc /\
-  synced_of st c = option_map pos_of (last_opt acc).
+  synced_last acc (synced_of st c).
+
+(* what may be delivered on behalf of c when nothing is assumed about the ORDER: entries of the source log,
+   transfer requests, snapshot requests that fail or carry the source's own state at one of its positions *)
+Definition src_delivery (c : N) (src : list sentry) (le : lentry) : Prop :=
+  match le with
+  | LSync e => In e src
+  | LXfer _ => True
+  | LSnap _ None => True
+  | LSnap e (Some j) => exists n x, nth_error src n = Some x /\ same_pos e x /\ j = src_snapshot c src n
+  | LSkip _ => False
+  | LLocal _ _ => True
+  end.
 
 Lemma wf_in : forall c src e, wf_source c src -> In e src -> s_cluster e = c /\ 0 < s_index e.
 Proof. intros c src e [Hf _] H. rewrite Forall_forall in Hf. now apply Hf. Qed.
 
-Lemma amo_step_sync : forall c src acc st e,
-  wf_source c src -> In e src -> Inv2 c src acc st ->
-  exists acc', Inv2 c src acc' (apply_entry st (LSync e)).
+Lemma last_firstn_S : forall (A : Type) (l : list A) n x, nth_error l n = Some x -> last_opt (firstn (S n) l) = Some x.
+Proof. intros A l n x H. rewrite (firstn_S_nth _ _ _ _ H). apply last_opt_snoc. Qed.
+
+Lemma amo_step : forall c src acc st le,
+  wf_source c src -> entry_cluster le = Some c -> src_delivery c src le -> Inv2 c src acc st ->
+  exists acc', Inv2 c src acc' (apply_entry st le).
 Proof.
-  intros c src acc st e Hwf Hin (Hj & Hm & Hs & Hy). destruct (wf_in _ _ _ Hwf Hin) as [Hc Hpos].
-  cbn [apply_entry]. destruct (is_already_applied (r_synced st) e) eqn:F.
-  - exists acc; repeat split; assumption.
-  - exists (acc ++ [e]). repeat split; cbn [r_journal r_synced].
+  intros c src acc st le Hwf Hcl Hsd (Hj & Hm & Hs & Hy).
+  destruct le as [e|t p|e|e content|e]; cbn in Hcl; try discriminate; injection Hcl as Hc; cbn [apply_entry].
+  - (* LSync *)
+    cbn in Hsd. destruct (wf_in _ _ _ Hwf Hsd) as [_ Hpos].
+    destruct (is_already_applied (r_synced st) e) eqn:F; [exists acc; repeat split; assumption|].
+    exists (acc ++ [e]). repeat split; cbn [r_journal r_synced].
     + unfold sm_apply. rewrite proj_app, Hj, Hc, proj_one_same, map_app. reflexivity.
-    + apply Forall_app; split; [exact Hm|]. constructor; [exact Hin|constructor].
+    + apply Forall_app; split; [exact Hm|]. constructor; [exact Hsd|constructor].
     + apply sorted_snoc; [exact Hs|].
       destruct (snoc_cases _ acc) as [->|NE]; [constructor|].
-      destruct NE as [acc0 [h ->]]. rewrite last_opt_snoc in Hy. cbn in Hy.
-        unfold is_already_applied in F. rewrite Hc in F. unfold synced_of in Hy. rewrite Hy in F. cbn in F.
-        assert (Hh : s_index h < s_index e) by lia.
-        apply Forall_app; split; [|constructor; [exact Hh|constructor]].
-        eapply Forall_impl; [|apply (sorted_snoc_inv _ _ _ _ Hs)]. intros a Ha. unfold idx_lt in *. lia.
-    + unfold synced_of; cbn [r_synced]. rewrite last_opt_snoc. cbn. rewrite <- Hc.
-      apply postprocess_get_same. destruct (s_index e =? 0) eqn:Z; [lia|]. now rewrite andb_false_r.
+      destruct NE as [acc0 [h ->]]. unfold synced_last in Hy. rewrite last_opt_snoc in Hy.
+      destruct Hy as [o' [Hy [Ht Hi]]].
+      unfold is_already_applied in F. rewrite Hc in F. unfold synced_of in Hy. rewrite Hy in F.
+      assert (Hh : s_index h < s_index e) by lia.
+      apply Forall_app; split; [|constructor; [exact Hh|constructor]].
+      eapply Forall_impl; [|apply (sorted_snoc_inv _ _ _ _ Hs)]. intros a Ha. unfold idx_lt in *. lia.
+    + unfold synced_last. rewrite last_opt_snoc.
+      destruct (postprocess_records (r_synced st) e Hpos) as [o' [Hg Hp]].
+      exists o'. split; [|exact Hp]. unfold synced_of; cbn [r_synced]. now rewrite <- Hc.
+  - (* LXfer *) exists acc; repeat split; assumption.
+  - (* LSnap *)
+    destruct (is_already_applied (r_synced st) e) eqn:F; [exists acc; repeat split; assumption|].
+    destruct content as [j|]; [|exists acc; repeat split; assumption].
+    cbn in Hsd. destruct Hsd as [n [x [Hn [Hsp ->]]]].
+    destruct (wf_nth _ _ _ _ Hwf Hn) as [Hcx Hposx]. destruct Hsp as [Ht Hi].
+    exists (firstn (S n) src). repeat split; cbn [r_journal r_synced].
+    + unfold src_snapshot. apply proj_tagged.
+    + apply Forall_forall. intros y Hy'. rewrite <- (firstn_skipn (S n) src). apply in_or_app; now left.
+    + apply sorted_firstn. apply sorted_weaken, Hwf.
+    + unfold synced_last. rewrite (last_firstn_S _ _ _ _ Hn).
+      destruct (postprocess_records (r_synced st) e ltac:(lia)) as [o' [Hg [Hp1 Hp2]]].
+      exists o'. split; [|split; congruence]. unfold synced_of; cbn [r_synced]. now rewrite <- Hc.
+  - (* LSkip *) contradiction.
 Qed.
 
-Lemma amo_other : forall c src acc st e,
-  s_cluster e <> c -> Inv2 c src acc st -> Inv2 c src acc (apply_entry st (LSync e)).
+Lemma amo_other : forall c src acc st le k0,
+  entry_cluster le = Some k0 -> k0 <> c ->
+  match le with LSnap _ (Some _) => False | _ => True end ->
+  Inv2 c src acc st -> Inv2 c src acc (apply_entry st le).
 Proof.
-  intros c src acc st e Hne (Hj & Hm & Hs & Hy). cbn [apply_entry].
-  destruct (is_already_applied (r_synced st) e); [repeat split; assumption|].
-  repeat split; cbn [r_journal r_synced]; auto.
-  - unfold sm_apply. rewrite proj_app, proj_one_other by exact Hne. now rewrite app_nil_r.
-  - unfold synced_of in *; cbn [r_synced]. rewrite postprocess_get_other by (intro X; apply Hne; now symmetry). exact Hy.
+  intros c src acc st le k0 Hk Hne Hns (Hj & Hm & Hs & Hy).
+  destruct le as [e|t p|e|e content|e]; cbn in Hk; inversion Hk; subst; cbn [apply_entry].
+  - destruct (is_already_applied (r_synced st) e); [repeat split; assumption|].
+    repeat split; cbn [r_journal r_synced]; auto.
+    + unfold sm_apply. rewrite proj_app, proj_one_other by exact Hne. now rewrite app_nil_r.
+    + unfold synced_of in *; cbn [r_synced]. rewrite postprocess_get_other by (intro X; apply Hne; now symmetry). exact Hy.
+  - repeat split; assumption.
+  - destruct (is_already_applied (r_synced st) e); [repeat split; assumption|].
+    destruct content; [contradiction|repeat split; assumption].
+  - destruct (is_already_applied (r_synced st) e); [repeat split; assumption|].
+    repeat split; cbn [r_journal r_synced]; auto.
+    unfold synced_of in *; cbn [r_synced]. rewrite postprocess_get_other by (intro X; apply Hne; now symmetry). exact Hy.
 Qed.
 
 Lemma amo_local : forall c src acc st t p,
@@ -671,52 +978,64 @@ Proof.
   unfold sm_apply. rewrite proj_app, proj_one_other by exact Hne. now rewrite app_nil_r.
 Qed.
 
-Lemma amo_log : forall c src l st acc,
-  wf_source c src -> no_local_tag c l -> (forall e, In e (deliveries c l) -> In e src) ->
-  Inv2 c src acc st -> exists acc', Inv2 c src acc' (apply_log st l).
+Lemma in_deliveries : forall c l le, In le (deliveries c l) <-> In le l /\ entry_cluster le = Some c.
 Proof.
-  intros c src l; induction l as [|le l IH]; intros st acc Hwf Hnl Hd HI.
-  - exists acc; exact HI.
-  - rewrite apply_log_cons. inversion Hnl as [|? ? Hle Hnl']; subst.
-    destruct le as [e|t p].
-    + destruct (N.eq_dec (s_cluster e) c) as [Hc|Hne].
-      * assert (Hin : In e src).
-        { apply Hd. cbn. apply N.eqb_eq in Hc. rewrite Hc. now left. }
-        destruct (amo_step_sync _ _ _ _ _ Hwf Hin HI) as [acc' HI'].
-        apply (IH _ acc' Hwf Hnl'); [|exact HI'].
-        intros x Hx. apply Hd. cbn. apply N.eqb_eq in Hc. rewrite Hc. now right.
-      * apply (IH _ acc Hwf Hnl'); [|now apply amo_other].
-        intros x Hx. apply Hd. cbn. apply N.eqb_neq in Hne. now rewrite Hne.
-    + apply (IH _ acc Hwf Hnl'); [|now apply amo_local].
-      intros x Hx. apply Hd. exact Hx.
+  intros c l le; unfold deliveries. rewrite filter_In. split; intros [H1 H2]; split; auto.
+  - destruct (entry_cluster le) as [k|]; [|discriminate]. apply N.eqb_eq in H2. now subst.
+  - rewrite H2. apply N.eqb_refl.
 Qed.
 
-(* at most once, in source order, for ANY order of delivery (re-orderings, gaps, losses included):
-   the data replicated from c is the payload image of a sub-sequence of the source log, and the
-   recorded position is the position of the last applied entry *)
+Lemma amo_log : forall c src l st acc,
+  wf_source c src -> no_local_tag c l -> no_foreign_snap c l ->
+  (forall le, In le (deliveries c l) -> src_delivery c src le) ->
+  Inv2 c src acc st -> exists acc', Inv2 c src acc' (apply_log st l).
+Proof.
+  intros c src l; induction l as [|le l IH]; intros st acc Hwf Hnl Hfs Hd HI.
+  - exists acc; exact HI.
+  - rewrite apply_log_cons. inversion Hnl as [|? ? Hle Hnl']; subst. inversion Hfs as [|? ? Hfe Hfs']; subst.
+    assert (Hd' : forall le0, In le0 (deliveries c l) -> src_delivery c src le0).
+    { intros le0 H0. apply Hd. apply in_deliveries in H0. apply in_deliveries. destruct H0; split; [now right|assumption]. }
+    destruct (entry_cluster le) as [k0|] eqn:EC.
+    + destruct (N.eq_dec k0 c) as [->|Hne].
+      * assert (Hsd : src_delivery c src le).
+        { apply Hd. apply in_deliveries. split; [now left|exact EC]. }
+        destruct (amo_step _ _ _ _ _ Hwf EC Hsd HI) as [acc' HI'].
+        apply (IH _ acc' Hwf Hnl' Hfs' Hd' HI').
+      * apply (IH _ acc Hwf Hnl' Hfs' Hd'). eapply amo_other; eauto.
+        destruct le as [e|t p|e|e [j|]|e]; try exact I. cbn in EC. inversion EC as [Hk0]. apply Hne. rewrite <- Hk0. exact Hfe.
+    + destruct le as [e|t p|e|e content|e]; cbn in EC; try discriminate.
+      apply (IH _ acc Hwf Hnl' Hfs' Hd'). now apply amo_local.
+Qed.
+
+(* at most once, in source order, for ANY order of delivery (re-orderings, gaps, losses, failed and repeated
+   snapshot requests included): the data replicated from c is the payload image of a sub-sequence of the source
+   log, and the recorded position is the raft position of the last applied entry *)
 Theorem at_most_once_log : forall c src l,
-  wf_source c src -> no_local_tag c l -> (forall e, In e (deliveries c l) -> In e src) ->
+  wf_source c src -> no_local_tag c l -> no_foreign_snap c l ->
+  (forall le, In le (deliveries c l) -> src_delivery c src le) ->
   exists acc, Sublist acc src /\
     proj c (r_journal (apply_log init_r l)) = map s_payload acc /\
-    synced_of (apply_log init_r l) c = option_map pos_of (last_opt acc).
+    synced_last acc (synced_of (apply_log init_r l) c).
 Proof.
-  intros c src l Hwf Hnl Hd.
-  destruct (amo_log c src l init_r [] Hwf Hnl Hd) as [acc (Hj & Hm & Hs & Hy)].
+  intros c src l Hwf Hnl Hfs Hd.
+  destruct (amo_log c src l init_r [] Hwf Hnl Hfs Hd) as [acc (Hj & Hm & Hs & Hy)].
   { repeat split; try constructor. }
   exists acc; repeat split; auto. apply sorted_incl_sublist; auto. apply sorted_weaken, Hwf.
 Qed.
 
 Theorem at_most_once : forall ops c src,
-  c <> 0 -> wf_source c src -> (forall e, In e (deliveries c (n_log (run ops))) -> In e src) ->
+  c <> 0 -> wf_source c src -> no_foreign_snap c (n_log (run ops)) ->
+  (forall le, In le (deliveries c (n_log (run ops))) -> src_delivery c src le) ->
   exists acc, Sublist acc src /\
     proj c (r_journal (n_cur (run ops))) = map s_payload acc /\
-    synced_of (n_cur (run ops)) c = option_map pos_of (last_opt acc).
+    synced_last acc (synced_of (n_cur (run ops)) c).
 Proof.
-  intros ops c src Hc Hwf Hd. rewrite run_refines_log.
+  intros ops c src Hc Hwf Hfs Hd. rewrite run_refines_log.
   apply at_most_once_log; auto. now apply run_no_local_tag.
 Qed.
 
-(* what enters the committed log was delivered: the hypothesis above can be read on the schedule *)
+(* what enters the committed log was delivered: for schedules without remote snapshot requests the hypothesis
+   above can be read on the schedule *)
 Fixpoint delivered (ops : list op) : list sentry :=
   match ops with
   | [] => []
@@ -725,83 +1044,89 @@ Fixpoint delivered (ops : list op) : list sentry :=
   | _ :: r => delivered r
   end.
 
+Definition no_snap_ops (ops : list op) : Prop :=
+  Forall (fun o => match o with OXfer _ _ _ | OSnapReq _ _ _ _ | OSkipReq _ _ _ => False | _ => True end) ops.
+
 Lemma delivered_app : forall a b, delivered (a ++ b) = delivered a ++ delivered b.
 Proof.
   induction a as [|o a IH]; intro b; cbn; [reflexivity|].
   destruct o; cbn; rewrite ?IH, <- ?app_assoc; reflexivity.
 Qed.
 
-Lemma in_deliveries : forall c l e, In e (deliveries c l) <-> In (LSync e) l /\ s_cluster e = c.
+Lemma rpc_collect_in : forall m b le, In le (fst (rpc_collect m b)) -> exists e, le = LSync e /\ In e (map fst b).
 Proof.
-  intros c l e; induction l as [|le l IH]; cbn; [tauto|].
-  rewrite in_app_iff, IH. destruct le as [x|t p].
-  - destruct (s_cluster x =? c) eqn:E; cbn.
-    + apply N.eqb_eq in E. split.
-      * intros [[<-|[]]|[H1 H2]]; auto.
-      * intros [[H|H] Hc]; [inversion H; subst; auto|auto].
-    + apply N.eqb_neq in E. split.
-      * intros [[]|[H1 H2]]; auto.
-      * intros [[H|H] Hc]; [inversion H; subst; contradiction|auto].
-  - split.
-    + intros [[]|[H1 H2]]; auto.
-    + intros [[H|H] Hc]; [discriminate|auto].
-Qed.
-
-Lemma rpc_collect_in : forall m b e, In (LSync e) (fst (rpc_collect m b)) -> In e (map fst b).
-Proof.
-  intros m b e; induction b as [|[x tsok] r IH]; cbn; [tauto|].
-  destruct (prefilter m x); [intro H; right; now apply IH|].
+  intros m b le; induction b as [|[x tsok] r IH]; cbn; [tauto|].
+  destruct (prefilter m x); [intro H; destruct (IH H) as [e [H1 H2]]; eauto|].
   destruct (negb tsok); cbn; [tauto|].
-  destruct (rpc_collect m r) as [l ok]; cbn in *. intros [H|H]; [inversion H; now left|right; now apply IH].
+  destruct (rpc_collect m r) as [l ok]; cbn in *. intros [H|H].
+  - exists x; split; auto.
+  - destruct (IH H) as [e [H1 H2]]; eauto.
 Qed.
 
+(* every entry of the log or in flight is a local write or a delivered source entry *)
 Definition from_delivered (nd : node) (ds : list sentry) : Prop :=
-  forall e, In (LSync e) (n_log nd ++ n_pending nd) -> In e ds.
+  forall le, In le (n_log nd ++ n_pending nd) ->
+    (exists p, le = LLocal 0 p) \/ (exists e, le = LSync e /\ In e ds).
+
+Lemma from_delivered_weaken : forall nd ds ds', from_delivered nd ds -> from_delivered nd (ds ++ ds').
+Proof.
+  intros nd ds ds' H le Hle. destruct (H le Hle) as [Hl|[e [H1 H2]]]; [now left|right].
+  exists e; split; [exact H1|]. apply in_or_app; now left.
+Qed.
 
 Lemma commit_n_from : forall nd k ds, from_delivered nd ds -> from_delivered (commit_n nd k) ds.
 Proof.
-  intros nd k ds H e; unfold commit_n; cbn [n_log n_pending]. rewrite <- app_assoc, firstn_skipn. apply H.
+  intros nd k ds H le; unfold commit_n; cbn [n_log n_pending]. rewrite <- app_assoc, firstn_skipn. apply H.
 Qed.
 
-Lemma step_from : forall nd o ds, from_delivered nd ds -> from_delivered (fst (step nd o)) (ds ++ delivered [o]).
+Lemma step_from : forall nd o ds,
+  match o with OXfer _ _ _ | OSnapReq _ _ _ _ | OSkipReq _ _ _ => False | _ => True end ->
+  from_delivered nd ds -> from_delivered (fst (step nd o)) (ds ++ delivered [o]).
 Proof.
-  intros nd o ds H. assert (W : from_delivered nd (ds ++ delivered [o])).
-  { intros e He; apply in_or_app; left; now apply H. }
-  destruct o as [x tsok propok pre|n| |p| | |b]; cbn [step delivered].
+  intros nd o ds Hns H. pose proof (from_delivered_weaken nd ds (delivered [o]) H) as W.
+  destruct o as [x tsok propok pre|n| |p| | |b|c t i|c t i content|c t i]; try contradiction; cbn [step delivered].
   - destruct (pre && prefilter (r_synced (n_cur nd)) x); [exact W|].
     destruct (negb tsok); [exact W|]. destruct (negb propok); [exact W|]. unfold from_delivered; cbn.
-    intros e He. rewrite app_assoc in He. apply in_app_or in He. destruct He as [He|[He|[]]].
-    + apply in_or_app; left; now apply H.
-    + inversion He; subst. apply in_or_app; right; now left.
+    intros le He. rewrite app_assoc in He. apply in_app_or in He. destruct He as [He|[He|[]]].
+    + apply W. exact He.
+    + subst le. right. exists x; split; [reflexivity|]. apply in_or_app; right; now left.
   - destruct (Nat.min n (length (n_pending nd))); [exact W|]. now apply commit_n_from.
-  - destruct (n_pending nd) as [|y r] eqn:E; [exact W|]. unfold from_delivered; cbn. intros e He. apply W. rewrite E.
+  - destruct (n_pending nd) as [|y r] eqn:E; [exact W|]. unfold from_delivered; cbn. intros le He. apply W. rewrite E.
     apply in_app_or in He. apply in_or_app. destruct He; [now left|right; now right].
-  - unfold from_delivered; cbn. intros e He. apply W. rewrite <- app_assoc in He. apply in_app_or in He. apply in_or_app.
-    destruct He as [He|He]; [now left|]. destruct He as [He|He]; [discriminate|now right].
+  - unfold from_delivered; cbn. intros le He. rewrite <- app_assoc in He. apply in_app_or in He.
+    destruct He as [He|He]; [apply W; apply in_or_app; now left|].
+    destruct He as [He|He]; [subst le; left; eauto|apply W; apply in_or_app; now right].
   - exact W.
-  - destruct (restore nd); unfold from_delivered; cbn. intros e He. apply W. rewrite app_nil_r in He. apply in_or_app; now left.
+  - destruct (restore nd); unfold from_delivered; cbn. intros le He. apply W. rewrite app_nil_r in He. apply in_or_app; now left.
   - pose proof (rpc_collect_in (r_synced (n_cur nd)) b) as Hr.
     destruct (rpc_collect (r_synced (n_cur nd)) b) as [l ok]; cbn [fst snd] in *.
-    apply commit_n_from. unfold from_delivered; cbn. intros e He. rewrite app_assoc in He. apply in_app_or in He. destruct He as [He|He].
-    + apply in_or_app; left; now apply H.
-    + apply in_or_app; right. rewrite app_nil_r. now apply Hr.
+    apply commit_n_from. unfold from_delivered; cbn. intros le He. rewrite app_assoc in He. apply in_app_or in He. destruct He as [He|He].
+    + apply W. exact He.
+    + right. destruct (Hr le He) as [e [H1 H2]]. exists e; split; [exact H1|]. apply in_or_app; right. now rewrite app_nil_r.
 Qed.
 
-Lemma run_from_delivered : forall ops, from_delivered (run ops) (delivered ops).
+Lemma run_from_delivered : forall ops, no_snap_ops ops -> from_delivered (run ops) (delivered ops).
 Proof.
-  intros ops; induction ops as [|o ops IH] using rev_ind; [intros e []|].
-  rewrite run_snoc, delivered_app. now apply step_from.
+  intros ops; induction ops as [|o ops IH] using rev_ind; intro Hn; [intros le []|].
+  apply Forall_app in Hn. destruct Hn as [Hn1 Hn2]. inversion Hn2; subst.
+  rewrite run_snoc, delivered_app. apply step_from; auto.
 Qed.
 
-(* at most once over ALL schedules whose deliveries are source entries: whatever the order, however often *)
+(* at most once over ALL schedules (without the remote snapshot requests) whose deliveries are source entries:
+   whatever the order, however often *)
 Theorem at_most_once_sched : forall ops c src,
-  c <> 0 -> wf_source c src ->
+  c <> 0 -> wf_source c src -> no_snap_ops ops ->
   (forall e, In e (delivered ops) -> s_cluster e = c -> In e src) ->
   exists acc, Sublist acc src /\
     proj c (r_journal (n_cur (run ops))) = map s_payload acc /\
-    synced_of (n_cur (run ops)) c = option_map pos_of (last_opt acc).
+    synced_last acc (synced_of (n_cur (run ops)) c).
 Proof.
-  intros ops c src Hc Hwf Hd. apply at_most_once; auto.
-  intros e He. apply in_deliveries in He. destruct He as [Hin Hce]. apply Hd; [|exact Hce].
-  apply (run_from_delivered ops). apply in_or_app; now left.
+  intros ops c src Hc Hwf Hns Hd.
+  pose proof (run_from_delivered ops Hns) as Hfd.
+  apply at_most_once; auto.
+  - apply Forall_forall. intros le Hle.
+    destruct (Hfd le (in_or_app _ _ _ (or_introl Hle))) as [[p ->]|[e [-> _]]]; exact I.
+  - intros le Hle. apply in_deliveries in Hle. destruct Hle as [Hin Hcl].
+    destruct (Hfd le (in_or_app _ _ _ (or_introl Hin))) as [[p ->]|[e [-> He]]]; [exact I|].
+    cbn. cbn in Hcl. inversion Hcl. now apply Hd.
 Qed.
